@@ -444,6 +444,60 @@ func runQuery(q *qnode, v any) ([]byte, error, bool) {
 	return out, err, pan
 }
 
+// c19CtxPtrRecv: a context-aware marshaler with a pointer receiver, held by value in addressable
+// places. There is no encoding/json reference for context-aware marshalers, so the expected texts
+// are written out: unfiltered, selected as a whole, and with a sub-query.
+func c19CtxPtrRecv(c *rt.Ctx, sub0 int) {
+	h := &zoo.QCtxPHolder{A: 1, V: zoo.QCtxMP{N: 2}, L: []zoo.QCtxMP{{N: 3}}, Ar: [2]zoo.QCtxMP{{N: 4}, {N: 5}}, P: &zoo.QCtxMP{N: 6}, Z: "z"}
+	m := func(n int, seen string) string { return fmt.Sprintf(`{"n":%d,"seen":"%s"}`, n, seen) }
+	full := `{"A":1,"V":` + m(2, "") + `,"L":[` + m(3, "") + `],"Ar":[` + m(4, "") + `,` + m(5, "") + `],"P":` + m(6, "") + `,"Z":"z"}`
+	sub := gojson.BuildSubFieldQuery
+	q1, _ := gojson.BuildFieldQuery("A", "V")
+	q2, _ := gojson.BuildFieldQuery(sub("V").Fields("n", "zz"), "Z")
+	q3, _ := gojson.BuildFieldQuery("P", sub("V").Fields("n"))
+	cases := []struct {
+		name string
+		x    any
+		q    *gojson.FieldQuery
+		want string
+	}{
+		{"Marshal(&holder)", h, nil, full},
+		{"MarshalContext(&holder) no query", h, &gojson.FieldQuery{}, full},
+		{"query A,V", h, q1, `{"A":1,"V":` + m(2, "") + `}`},
+		{"query V{n,zz},Z", h, q2, `{"V":` + m(2, "n,zz") + `,"Z":"z"}`},
+		{"query P,V{n}", h, q3, `{"V":` + m(2, "n") + `,"P":` + m(6, "") + `}`},
+		{"Marshal([]holder)", []zoo.QCtxPHolder{*h}, nil, `[` + full + `]`},
+		{"Marshal(&[]QCtxMP)", &[]zoo.QCtxMP{{N: 7}, {N: 8}}, nil, `[` + m(7, "") + `,` + m(8, "") + `]`},
+		{"Marshal(map[string]*QCtxMP)", map[string]*zoo.QCtxMP{"k": {N: 9}}, nil, `{"k":` + m(9, "") + `}`},
+	}
+	for i, cs := range cases {
+		if !c.Cur(sub0+i, "shapes=core\npointer-receiver context marshaler: "+cs.name) {
+			continue
+		}
+		for rep := 0; rep < 2; rep++ {
+			var got []byte
+			var err error
+			pan, msg, _ := rt.Guard(func() {
+				switch {
+				case cs.q == nil:
+					got, err = gojson.Marshal(cs.x)
+				case len(cs.q.Fields) == 0 && cs.q.Name == "":
+					got, err = gojson.MarshalContext(context.Background(), cs.x)
+				default:
+					got, err = gojson.MarshalContext(gojson.SetFieldQueryToContext(context.Background(), cs.q), cs.x)
+				}
+			})
+			c.Eval(1)
+			if pan || err != nil || string(got) != cs.want {
+				c.Violate(rt.Violation{Monitor: "projection", Entry: "ctx-marshaler-ptr-receiver", Kind: "projection-mismatch", Ctx: cs.name,
+					Detail: fmt.Sprintf("%s (call %d): got %s err=%v panic=%v %s; want %s", cs.name, rep+1, rt.Q(got), err, pan, msg, cs.want), Sub: sub0 + i})
+				break
+			}
+		}
+		c.NonTrivial("ctxptr", cs.name)
+	}
+}
+
 func c19Check(c *rt.Ctx, sub int, v any, t reflect.Type, q *qnode, phase string) {
 	var base []byte
 	var err error
@@ -575,6 +629,9 @@ func init() {
 		},
 		Run: func(c *rt.Ctx) {
 			r := c.RNG(0)
+			if c.Idx%16 == 3 {
+				c19CtxPtrRecv(c, 9000)
+			}
 			types := []reflect.Type{reflect.TypeOf(zoo.QOuter{}), reflect.TypeOf(zoo.QInner{}), reflect.TypeOf(zoo.QLeaf{})}
 			for k := 0; k < 24; k++ {
 				o := qvalue(r, 2)
